@@ -24,6 +24,16 @@ CHECKS = {
         note="conditioning from a finite-difference Jacobian at the point; declared constants: cubic quadratic_threshold/eps, UMNN bisection, Sigmoid clamp; at kinks either one-sided log-det is accepted",
         ref="DESIGN.md 4/C02",
     ),
+    "C03": dict(
+        technique="exhaustive enumeration of all well-typed programs (compositions) of library transforms up to a size bound over a typed leaf alphabet; oracle = deterministic two-resolution quadrature of exp(log_prob) over the program's data space + reference decomposition log_prob = base density + log-det",
+        text="Leaves carry data-space types (R, (0,1), (0,inf), (-1,1)); every sequence of <=2 (thorough <=3) of 44 one-dimensional leaves (24 transforms and their InverseTransform wrappers) that "
+        "type-checks and ends in R, and every sequence of <=2 of 27 two-dimensional leaves over R^2 (all coupling classes with both masks, autoregressive classes, linear family, permutations, lifted "
+        "elementwise transforms), is wrapped into a Flow with a library base (StandardNormal; single leaves also DiagonalNormal / ConditionalDiagonalNormal with 2 context rows / embedding net) and "
+        "exp(log_prob) is integrated over its data space by a midpoint rule in a smooth re-parametrisation at n and n/2 points: the result must be 1. Independently log_prob must equal the reference "
+        "base log-density at the transformed point plus the returned log-det.",
+        note="data dimension 1 and 2 (as the property scopes it); UMNN excluded (not onto R for all weights); clamp-bounded leaves only last, LogTanh only first; tolerance floors 4e-4 / 2e-3 (1-D) and 3e-3 / 2e-2 (2-D) for smooth / discontinuous densities",
+        ref="DESIGN.md 4/C03",
+    ),
     "C04": dict(
         technique="bounded-exhaustive enumeration of flow programs x bases x context rows x num_samples with torch.randn owned by a tagging / quantile-lattice seam; exact pairing and push-forward oracles",
         text="For every flow configuration (four transform programs x StandardNormal / conditional / diagonal base x raw / embedded / no context; MaskedAutoregressiveFlow; SimpleRealNVP; <=2 (<=3) "
@@ -176,7 +186,7 @@ CHECKS = {
 }
 
 ALL = ["C%02d" % i for i in range(1, 21)]
-NOT_YET = "check not built yet in this session (planned, see DESIGN.md section 4); not claimed until it runs clean"
+NOT_YET = "not claimed"
 
 
 def main():
